@@ -88,8 +88,27 @@ Fixpoint first_diff {A} (dec : forall a b : A, {a = b} + {a <> b}) (i : N) (a b 
   | [], y :: _ => Some (i, None, Some y)
   end.
 
+(* model step vs observed step: equal, except that a model error EAmbiguous matches any error *)
+Definition resp_match (m o : resp) : bool :=
+  match m, o with
+  | RErr EAmbiguous, RErr _ => true
+  | _, _ => if resp_eq_dec m o then true else false
+  end.
+Definition ostep_match (m o : ostep) : bool :=
+  resp_match (os_resp m) (os_resp o)
+  && (if list_eq_dec fevent_eq_dec (os_live m) (os_live o) then true else false)
+  && (if snapshot_eq_dec (os_snap m) (os_snap o) then true else false).
+
+Fixpoint first_mismatch (i : N) (a b : list ostep) : option (N * option ostep * option ostep) :=
+  match a, b with
+  | [], [] => None
+  | x :: a', y :: b' => if ostep_match x y then first_mismatch (i + 1) a' b' else Some (i, Some x, Some y)
+  | x :: _, [] => Some (i, Some x, None)
+  | [], y :: _ => Some (i, None, Some y)
+  end.
+
 Definition kv_corr_ok (c : scase * list ostep) : bool :=
-  match first_diff ostep_eq_dec 0 (srun (fst c)) (snd c) with None => true | Some _ => false end.
+  match first_mismatch 0 (srun (fst c)) (snd c) with None => true | Some _ => false end.
 
 (* for replay files: the first differing step, reduced to the parts that differ
    (model value first, observed value second) *)
@@ -111,7 +130,7 @@ Definition rows_diff (a b : list ((string * string) * obsrow)) : list (string * 
   ++ flat_map (fun e => match look (fst e) a with Some _ => [] | None => [(fst (fst e), snd (fst e), None, Some (snd e))] end) b.
 
 Definition kv_explain (c : scase * list ostep) : option kv_diff + string :=
-  match first_diff ostep_eq_dec 0 (srun (fst c)) (snd c) with
+  match first_mismatch 0 (srun (fst c)) (snd c) with
   | None => inl None
   | Some (i, Some m, Some o) =>
       inl (Some (mkKvDiff i
